@@ -164,23 +164,31 @@ struct Layout {
     /// manual checkpoints: message ordinals (1-based), may repeat (equal to_seq)
     ckpts: Vec<usize>,
     auto_stride: Option<u64>,
+    /// extra bytes per message: makes the messages+runs sidecar larger than the 256 KiB initial tail window
+    filler: usize,
+    /// compile every message as anchor (window-boundary effects sit at unpredictable positions)
+    all_anchors: bool,
 }
 
 fn layouts(rng: &mut Rng, idx: u64) -> Layout {
     let fixed: Vec<Layout> = vec![
-        Layout { name: "exactly_15", msgs: 15, dense: 0, real_runs_every: 4, ckpts: vec![], auto_stride: None },
-        Layout { name: "exactly_16", msgs: 16, dense: 1, real_runs_every: 5, ckpts: vec![], auto_stride: None },
-        Layout { name: "exactly_17", msgs: 17, dense: 0, real_runs_every: 6, ckpts: vec![], auto_stride: None },
-        Layout { name: "ckpt_then_16", msgs: 20, dense: 0, real_runs_every: 7, ckpts: vec![4], auto_stride: None },
-        Layout { name: "ckpt_then_17", msgs: 21, dense: 2, real_runs_every: 0, ckpts: vec![4], auto_stride: None },
-        Layout { name: "ckpt_at_last", msgs: 9, dense: 0, real_runs_every: 3, ckpts: vec![9], auto_stride: None },
-        Layout { name: "equal_to_seq_twice", msgs: 10, dense: 0, real_runs_every: 0, ckpts: vec![5, 5, 5], auto_stride: None },
-        Layout { name: "halving_4", msgs: 40, dense: 0, real_runs_every: 0, ckpts: vec![2, 5, 10, 20, 38], auto_stride: None },
-        Layout { name: "halving_dense", msgs: 24, dense: 3, real_runs_every: 9, ckpts: vec![1, 3, 6, 12, 23], auto_stride: None },
-        Layout { name: "auto_every_3", msgs: 19, dense: 1, real_runs_every: 5, ckpts: vec![], auto_stride: Some(3) },
-        Layout { name: "dense_side_effects", msgs: 8, dense: 60, real_runs_every: 3, ckpts: vec![3], auto_stride: None },
-        Layout { name: "single_message", msgs: 1, dense: 2, real_runs_every: 1, ckpts: vec![1], auto_stride: None },
+        Layout { name: "exactly_15", msgs: 15, dense: 0, real_runs_every: 4, ckpts: vec![], auto_stride: None, filler: 0, all_anchors: false },
+        Layout { name: "exactly_16", msgs: 16, dense: 1, real_runs_every: 5, ckpts: vec![], auto_stride: None, filler: 0, all_anchors: false },
+        Layout { name: "exactly_17", msgs: 17, dense: 0, real_runs_every: 6, ckpts: vec![], auto_stride: None, filler: 0, all_anchors: false },
+        Layout { name: "ckpt_then_16", msgs: 20, dense: 0, real_runs_every: 7, ckpts: vec![4], auto_stride: None, filler: 0, all_anchors: false },
+        Layout { name: "ckpt_then_17", msgs: 21, dense: 2, real_runs_every: 0, ckpts: vec![4], auto_stride: None, filler: 0, all_anchors: false },
+        Layout { name: "ckpt_at_last", msgs: 9, dense: 0, real_runs_every: 3, ckpts: vec![9], auto_stride: None, filler: 0, all_anchors: false },
+        Layout { name: "equal_to_seq_twice", msgs: 10, dense: 0, real_runs_every: 0, ckpts: vec![5, 5, 5], auto_stride: None, filler: 0, all_anchors: false },
+        Layout { name: "halving_4", msgs: 40, dense: 0, real_runs_every: 0, ckpts: vec![2, 5, 10, 20, 38], auto_stride: None, filler: 0, all_anchors: false },
+        Layout { name: "halving_dense", msgs: 24, dense: 3, real_runs_every: 9, ckpts: vec![1, 3, 6, 12, 23], auto_stride: None, filler: 0, all_anchors: false },
+        Layout { name: "auto_every_3", msgs: 19, dense: 1, real_runs_every: 5, ckpts: vec![], auto_stride: Some(3), filler: 0, all_anchors: false },
+        Layout { name: "dense_side_effects", msgs: 8, dense: 60, real_runs_every: 3, ckpts: vec![3], auto_stride: None, filler: 0, all_anchors: false },
+        Layout { name: "single_message", msgs: 1, dense: 2, real_runs_every: 1, ckpts: vec![1], auto_stride: None, filler: 0, all_anchors: false },
     ];
+    let mut fixed = fixed;
+    fixed.push(Layout { name: "big_messages_60", msgs: 60, dense: 0, real_runs_every: 0, ckpts: vec![], auto_stride: None, filler: 6000, all_anchors: true });
+    fixed.push(Layout { name: "big_messages_ckpt", msgs: 70, dense: 1, real_runs_every: 0, ckpts: vec![8], auto_stride: None, filler: 5000, all_anchors: true });
+    fixed.push(Layout { name: "big_messages_runs", msgs: 48, dense: 0, real_runs_every: 7, ckpts: vec![], auto_stride: None, filler: 8000, all_anchors: true });
     if (idx as usize) < fixed.len() {
         return fixed[idx as usize].clone();
     }
@@ -193,6 +201,8 @@ fn layouts(rng: &mut Rng, idx: u64) -> Layout {
         real_runs_every: [0, 2, 3, 5][rng.usize(4)],
         ckpts: (0..nck).map(|_| 1 + rng.usize(msgs)).collect(),
         auto_stride: if rng.chance(1, 4) { Some(rng.range(1, 6)) } else { None },
+        filler: if rng.chance(1, 5) { 3000 + rng.usize(6000) } else { 0 },
+        all_anchors: rng.chance(1, 5),
     }
 }
 
@@ -275,9 +285,17 @@ fn one_case(cfg: &Cfg, r: &mut Report, rt: &tokio::runtime::Runtime, rng: &mut R
                 }
             }
         } else {
-            let res = exec(&app, &store.data, &conts, &mut known, OpKind::Msg, rng, &tag);
-            if let Some(id) = res.acked.first() {
-                msg_ids.push(id.clone());
+            if lay.filler > 0 {
+                let content = format!("msg {tag} #{m} {}", rng.ascii(lay.filler));
+                if let Ok(id) = st.append_message(&thread, "a".into(), "rv".into(), content) {
+                    known.msgs.push((thread.clone(), id.clone()));
+                    msg_ids.push(id);
+                }
+            } else {
+                let res = exec(&app, &store.data, &conts, &mut known, OpKind::Msg, rng, &tag);
+                if let Some(id) = res.acked.first() {
+                    msg_ids.push(id.clone());
+                }
             }
             if rng.chance(1, 3) {
                 // a fake (frame-only) run for this message, sometimes two (last run_ended wins)
@@ -354,6 +372,9 @@ fn one_case(cfg: &Cfg, r: &mut Report, rt: &tokio::runtime::Runtime, rng: &mut R
     for _ in 0..cfg.tier.pick(4, 10) {
         picks.push(rng.usize(n));
     }
+    if lay.all_anchors {
+        picks = (0..n).collect();
+    }
     picks.sort();
     picks.dedup();
 
@@ -378,7 +399,10 @@ fn one_case(cfg: &Cfg, r: &mut Report, rt: &tokio::runtime::Runtime, rng: &mut R
             ("snapshots_removed", &[], true),
         ];
         let mut first: Option<Value> = None;
-        for (vname, remove, drop_snap) in variants {
+        for (vi, (vname, remove, drop_snap)) in variants.into_iter().enumerate() {
+            if lay.all_anchors && vi % 2 == 1 && ai % 8 != 0 {
+                continue; // long layouts: caches intact + all removed for every anchor, the rest for every 8th
+            }
             let f = store.fork_sharing_ws("c08v");
             if remove.contains(&"*") {
                 let _ = std::fs::remove_dir_all(f.streams_dir());
